@@ -554,12 +554,8 @@ func c18R2(r *Report) {
 			key := fmt.Sprintf("%s/%s/%s", fld, map[bool]string{true: "write", false: "read"}[acc.Write], fname(f))
 			if acc.Write {
 				fa := acc.Instr.(*ssa.FieldAddr)
-				isLit := false
-				if al, ok := fa.X.(*ssa.Alloc); ok && al.Comment == "complit" {
-					isLit = true
-				}
 				switch {
-				case named.Name() == "New" && isLit:
+				case named.Name() == "New" && relPkg(named) == "tor":
 					// … from the global default of the same switch (a torrent that nobody reconfigures lives with it)
 					want := map[string]string{"dhtMode": "DefaultDhtMode", "useTrackers": "DefaultUseTrackers", "useWebseeds": "DefaultUseWebseeds"}[fld]
 					got := ""
